@@ -461,9 +461,9 @@ struct or pointer-to-struct type (name resolution of the current code, `cfg.dn =
 not nil), slices of structs (index, `#`, the builtins with closures over struct elements), `map[string]interface{}` values (member, index, `in`, `len`; the result an `interface{}`, of
 which nothing is claimed but that the access does not fail), indexing a `[]interface{}`, `in` on structs,
 map literals, and — behind hypotheses on the world, switched on by the flags `FragOpts` of `inFrag2` — calls of
-environment functions (`WorldConforms`) and `matches` (`RegexTotal`: EVERY pattern compiles — stronger than a faithful regexp
-world offers, where `"("` does not compile; `Spec.eval` reports a pattern that does not compile in the type
-class, so the theorem assumes that failure away rather than tolerating it: a limitation, see the report) and
+environment functions (`WorldConforms`) and `matches` with a literal pattern that `FragOpts.okPat` admits (`RegexOn`: the admitted
+patterns compile — true of a faithful matcher, in which `"("` does not; a computed pattern stays outside the
+fragment, since `Spec.eval` reports a pattern that does not compile in the type class) and
 method calls `x.m(…)` on struct-typed receivers (`MethodsConform`).  `typed2` is "every operand has a static type the construct's rule is sound for": scalar
 operands for the scalar operators and the predicate's body, a slice of scalars (`[]int`, `[]string`, …)
 where a collection is expected, an integer (not `interface{}`) index.  This excludes, explicitly, the constructs
@@ -504,7 +504,7 @@ numeric parameter (`Ff(1)`, `Ff(-(1 + 2))`); the retyped non-literal arguments o
 theorem check_sound_calls_partial (cfg : CheckCfg) (c : Spec.SCfg) (henv : EnvConforms2 cfg c.env)
     (hdn : cfg.dn = NDefects.asIs)
     (fo : FragOpts) (hworld : fo.calls = true → WorldConforms (fun e => ValueDep e ∨ e = .call) cfg c)
-    (hregex : fo.regex = true → RegexTotal c)
+    (hregex : fo.regex = true → RegexOn c fo.okPat)
     (hmeth : fo.methods = true → MethodsConform (fun e => ValueDep e ∨ e = .call) cfg c)
     (n n' : Node) (τ : OTy) (V : VTy) (hfrag : inFrag2 fo n = true) (hstatic : typed2 cfg [] n = true)
     (h : check cfg n = .ok n' τ) (hV : vtyOf τ = some V) (ctx : Spec.Ctx) (s : Spec.SState) :
@@ -601,7 +601,7 @@ theorem as_kind_exact_collections_partial (cfg : CheckCfg) (c : Spec.SCfg) (henv
 theorem as_kind_exact_calls_partial (cfg : CheckCfg) (c : Spec.SCfg) (henv : EnvConforms2 cfg c.env)
     (hdn : cfg.dn = NDefects.asIs)
     (fo : FragOpts) (hworld : fo.calls = true → WorldConforms (fun e => ValueDep e ∨ e = .call) cfg c)
-    (hregex : fo.regex = true → RegexTotal c)
+    (hregex : fo.regex = true → RegexOn c fo.okPat)
     (hmeth : fo.methods = true → MethodsConform (fun e => ValueDep e ∨ e = .call) cfg c)
     (n n' : Node) (τ : OTy) (hfrag : inFrag2 fo n = true) (hstatic : typed2 cfg [] n = true)
     (h : check cfg n = .ok n' τ) (hτs : ScalarT τ) :
@@ -801,14 +801,49 @@ example : inFrag2 {} exprMaps = true ∧ typed2 (cfgWith5 .asIs) [] exprMaps = t
     typed2 (cfgWith .asIs) [] (.index {} (ident "MSI") (.str {} "k")) = false := by
   decide +kernel
 
-/-- `Str matches "^a" and not (St.Y matches Str)` over `envTy5` -/
+/-- the patterns of a small faithful matcher: an optional `^`, literal ASCII characters that are no regexp
+metacharacters, an optional `$` (the class `Drv.simpleRegex` models exactly); everything else — `"("`, `"a+"`
+— does not "compile" here -/
+def litBody (pat : String) : Bool × Bool × List Char :=
+  let cs := pat.toList
+  let (anchS, cs) := match cs with
+    | '^' :: rest => (true, rest)
+    | _ => (false, cs)
+  let (anchE, cs) := match cs.reverse with
+    | '$' :: rest => (true, rest.reverse)
+    | _ => (false, cs)
+  (anchS, anchE, cs)
+
+def litOK (pat : String) : Bool :=
+  (litBody pat).2.2.all (fun c => c.toNat < 128 && !("\\.+*?()|[]{}^$".toList.contains c))
+
+/-- the matcher: `none` for a pattern outside the class (it does not compile) -/
+def litRegex (pat subj : String) : Option Bool :=
+  if litOK pat then
+    let lit := String.ofList (litBody pat).2.2
+    some (match (litBody pat).1, (litBody pat).2.1 with
+      | true, true => subj == lit
+      | true, false => strHasPrefix subj lit
+      | false, true => strHasSuffix subj lit
+      | false, false => strContains subj lit)
+  else none
+
+/-- `Str matches "^a" and not (St.Y matches "b$")` over `envTy5`: literal patterns -/
 def exprMatches : Node :=
   .binary {} "and" (.matches {} true (ident "Str") (.str {} "^a"))
-    (.unary {} "not" (.matches {} false (.prop {} (ident "St") "Y" false) (ident "Str")))
+    (.unary {} "not" (.matches {} true (.prop {} (ident "St") "Y" false) (.str {} "b$")))
 
-example : inFrag2 { regex := true } exprMatches = true ∧ inFrag2 {} exprMatches = false ∧
+/-- a computed pattern, and a literal the matcher does not compile -/
+def exprMatchesDyn : Node := .matches {} false (ident "Str") (ident "Str")
+def exprMatchesBad : Node := .matches {} true (ident "Str") (.str {} "(")
+
+example : inFrag2 { regex := true, okPat := litOK } exprMatches = true ∧ inFrag2 {} exprMatches = false ∧
     typed2 (cfgWith5 .asIs) [] exprMatches = true ∧
-    (check (cfgWith5 .asIs) exprMatches).okType = some boolTy := by
+    (check (cfgWith5 .asIs) exprMatches).okType = some boolTy ∧
+    -- outside the fragment: a computed pattern; a literal that does not compile
+    inFrag2 { regex := true, okPat := litOK } exprMatchesDyn = false ∧
+    inFrag2 { regex := true, okPat := litOK } exprMatchesBad = false ∧
+    litRegex "(" "a" = none ∧ litRegex "a+" "a" = none ∧ litRegex "^a" "ab" = some true := by
   decide +kernel
 
 /-- `type ZM struct { N int }` with `func (ZM) Add(a, b int) int` and a function-typed field -/
@@ -939,9 +974,11 @@ theorem struct_conforms_witness :
       rw [zaMethods] at h
       cases h
 
--- `RegexTotal` is satisfiable (a world whose matcher accepts every pattern)
-example : RegexTotal { sampleSCfg with world := { sampleWorld with regexMatch := fun _ _ => some false } } :=
-  fun _ _ => rfl
+/-- `RegexOn` holds of a faithful matcher in which bad patterns do not compile -/
+theorem regexOn_lit (c : Spec.SCfg) (h : c.world.regexMatch = litRegex) : RegexOn c litOK := by
+  intro pat subj hok
+  rw [h]
+  simp [litRegex, hok]
 
 /-! ### every hypothesis satisfied: environments, worlds and the theorems instantiated end to end -/
 
@@ -1076,7 +1113,7 @@ theorem confZA (p : Bool) (t : Ty) (hV : vtyOf (some t) = some (.obj (some t)))
 def tbl5 : Table := [("Str", { ty := some .string }), ("St", { ty := some tZA }), ("Anys", { ty := some (.slice interfaceType) }), ("MA", { ty := some (.map .string interfaceType) })]
 theorem types5 : (cfgWith5 .asIs).types = some tbl5 := by decide +kernel
 def env5 : Val := .struct "main.E5" false [("MA", .map [("k", .int .int 1)]), ("Anys", .arr .iface [.str "z"]), ("St", zaV), ("Str", .str "k")]
-def scfg5 : Spec.SCfg := { world := { sampleWorld with regexMatch := fun _ _ => some false }, env := env5, budget := 1000 }
+def scfg5 : Spec.SCfg := { world := { sampleWorld with regexMatch := litRegex }, env := env5, budget := 1000 }
 
 theorem get5 (name : String) :
     tbl5.get? name = if name = "Str" then some { ty := some .string }
@@ -1161,8 +1198,8 @@ theorem sound_matches_witness : ∀ n' τ, check (cfgWith5 .asIs) exprMatches = 
     rw [h] at this
     simpa [CheckResult.okType] using this
   subst hτ
-  exact check_sound_calls_partial (cfgWith5 .asIs) scfg5 env5_conf rfl { regex := true } (fun h => by cases h)
-    (fun _ => fun _ _ => rfl) (fun h => by cases h) exprMatches n' _
+  exact check_sound_calls_partial (cfgWith5 .asIs) scfg5 env5_conf rfl { regex := true, okPat := litOK } (fun h => by cases h)
+    (fun _ => regexOn_lit scfg5 rfl) (fun h => by cases h) exprMatches n' _
     (.sc .bool) (by decide +kernel) (by decide +kernel) h (by decide) ctx s
 
 theorem get4 (name : String) :
